@@ -1,4 +1,5 @@
 import ElysModel.Drv.C14
+import ElysModel.Drv.CommitH
 open Elys.Drv
 
 def main (args : List String) : IO UInt32 := do
@@ -6,4 +7,6 @@ def main (args : List String) : IO UInt32 := do
   let stdout ← IO.getStdout
   match args with
   | ["C14"] => loop stdin stdout Elys.Drv.C14.handle {} 0; return 0
+  | ["C12"] => loop stdin stdout (Elys.Drv.CommitH.handle "C12") {} 0; return 0
+  | ["C02"] => loop stdin stdout (Elys.Drv.CommitH.handle "C02") {} 0; return 0
   | _ => IO.eprintln "usage: driver <property>"; return 2
